@@ -182,17 +182,21 @@ def partition_basis(parent, P):
 
 
 def connected_alt(cur, p, variant):
-    """the C0 basis of the same grid seen as an unstructured topology (ConnectedTopology: _basis_c0_structured with
-    util.merge_index_map over the connectivity and Reference.get_edge_dofs): the same space, other numbering"""
-    btype = ('lagrange', 'bernstein', 'std')[variant % 3]
+    """the C0 basis of the same grid through TransformChainsTopology._basis_c0_structured (util.merge_index_map over the
+    connectivity and Reference.get_edge_dofs): the same space, other numbering.  Two public routes: basis('lagrange') /
+    basis('bernstein') of the structured topology itself (only basis_std is overridden there), and basis('std') of the
+    same elements as an unstructured ConnectedTopology (what mesh.unitsquare(etype='mixed') builds)"""
+    route = ('lagrange', 'bernstein', 'connected-std')[variant % 3]
 
     def make():
         from nutils import topology
         t = cur.topo
-        ct = topology.ConnectedTopology(t.space, t.references, t.transforms, t.opposites, t.connectivity)
-        # the interfaces are taken from the structured topology (same elements, same transforms)
-        return Obj(ct, cur.geom, ct.basis(btype, degree=p), period=cur.period, exact=False, root=t)
-    return 'connected-' + btype, make
+        if route == 'connected-std':
+            ct = topology.ConnectedTopology(t.space, t.references, t.transforms, t.opposites, t.connectivity)
+            # the interfaces are taken from the structured topology (same elements, same transforms)
+            return Obj(ct, cur.geom, ct.basis('std', degree=p), period=cur.period, exact=False, root=t)
+        return Obj(t, cur.geom, t.basis(route, degree=p), period=cur.period, exact=False, root=t)
+    return 'c0-' + route, make
 
 
 def product_basis(dims):
@@ -425,12 +429,16 @@ def check_alternative(label, alt, obj, tab, fam, pmax, pred=None):
     ogeom = None
     if isinstance(other, Obj):     # the same space by another construction: decided against the same prediction
         try:
-            compare(pred, other, [], 'c0-connected', pmax)
+            tab2, n2, soft2 = compare(pred, other, [], 'c0', pmax)
         except Fail as f:
-            if 4 in (other.period or ()):   # a periodic direction with two elements: they are neighbours through both their facets
-                raise Fail('c0-connected:two-elements-share-two-facets', 'C0 basis {} on a ConnectedTopology in which two elements share two facets '
+            # a periodic direction with two elements: they are neighbours through both their facets, and _basis_c0_structured
+            # looks the opposite facet up with util.index(connectivity[neighbour], element) = the first of the two
+            if 4 in (other.period or ()) and f.key in ('c0:dofs', 'c0:ndofs', 'c0:nonzero-vs-dofs', 'c0:continuity:order0', 'c0:partition-of-unity'):
+                raise Fail('c0:two-elements-share-two-facets', 'C0 basis via {} on a grid in which two elements share two facets '
                            '(periodic direction of 2 elements): {}'.format(label, f.what), f.data)
             raise
+        if soft2:
+            raise soft2[0]
         return
     if isinstance(other, tuple):   # a basis on another topology covering the same points
         otopo, other, ogeom = other
